@@ -25,7 +25,9 @@ KW_NAMES = [b'endx', b'do_it', b'iffy', b'nots', b'android', b'forx', b'inn', b'
             b'xend', b'xif', b'breaker', b'returns', b'localx', b'untill', b'whiles', b'thenx', b'elsee', b'gotox',
             b'functions', b'repeats', b'falsey', b'elseiff',
             # identifiers that differ from a reserved word only in case (Lua is case-sensitive)
-            b'End', b'IF', b'Not', b'OR', b'In', b'Do', b'True', b'Nil', b'Function', b'THEN', b'Else']
+            b'End', b'IF', b'Not', b'OR', b'In', b'Do', b'True', b'Nil', b'Function', b'THEN', b'Else',
+            # identifiers that are words of the cart file format and of picotool's own directives
+            b'include', b'version', b'pico', b'cartridge', b'lua', b'gfx', b'label']
 GLYPH_NAMES = [b'\x80', b'\x8e\x97', b'x\x99', b'\xe3\x81', b'a\x80b', b'\xff\xfe', b'_\x85']
 BUILTIN_NAMES = [b'print', b'spr', b'btn', b'rnd', b'flr', b'add', b'del', b'sin', b'cos', b'mid', b'_init', b'_update',
                  b'_draw', b'sfx', b'pset', b'max', b'min', b'abs', b'cls', b'map']
